@@ -329,8 +329,9 @@ func VerifyHashed(pubx, puby, e, r, s []byte) (bool, error) {
 	}
 
 	// done sanity check
+	// t must be passed as a full 32-byte scalar: big.Int.Bytes() drops leading zero bytes
 	var tBytes []byte
-	tBytes = t.Bytes()
+	tBytes = ensure32Bytes(&t)
 
 	result, err = internal.ScalarMixedMult_Unsafe(s, pub, tBytes)
 	if err != nil {
